@@ -348,6 +348,7 @@ def oracle_c10(run, ops, impl):
 
 PROPS["C10"] = {
     "modules": ["NibiruProofs.C10"],
+    "fact_obligations": ["fact_C10_end_blocker_gates"],
     "runs": [{"model": "otally", "n_quick": 400, "n_thorough": 6000, "nontrivial": r"R=[a-z]", "per_line": True}],
     "oracle": oracle_c10,
     "rule": "each case: a validator set created through the real staking msg server (random powers, some jailed/unbonding), random "
@@ -444,6 +445,7 @@ def oracle_c12(run, ops, impl):
 
 PROPS["C12"] = {
     "modules": ["NibiruProofs.C12"],
+    "fact_obligations": ["fact_C12_end_blocker_gates"],
     "runs": [{"model": "otally", "n_quick": 400, "n_thorough": 6000, "nontrivial": r"PAID=[0-9a-f]|SLASHED=[0-9a-f]", "per_line": True}],
     "oracle": oracle_c12,
     "rule": PROPS["C10"]["rule"] + "; for C12 a case is non-trivial when a reward was paid out or a validator was slashed",
